@@ -144,6 +144,15 @@ pub struct Local<'a> {
     slot: Arc<Slot>,
 }
 
+/// VERIF_THIN=k: explore only every k-th outer index of each parallel universe (used for the second, no-assertion pass)
+pub fn thin_factor() -> usize {
+    std::env::var("VERIF_THIN").ok().and_then(|s| s.parse().ok()).unwrap_or(1)
+}
+/// the cargo profile this engine was built with, as told by the driver (recorded in replay files)
+pub fn profile_name() -> String {
+    std::env::var("VERIF_PROFILE").unwrap_or_else(|_| "release".to_string())
+}
+
 pub fn args_env() -> (String, String, u64, Option<String>) {
     // --prop Cxx [--tier quick|thorough] [--seed n] [--replay path]
     let a: Vec<String> = std::env::args().collect();
@@ -200,6 +209,8 @@ pub fn install_panic_hook() {
 impl Runner {
     pub fn new(group: &str, prop: &str, tier: &str, seed: u64) -> Arc<Runner> {
         install_panic_hook();
+        // large worker stacks: values of the widest instantiated types (tens of kilobytes each) are passed by value
+        let _ = rayon::ThreadPoolBuilder::new().stack_size(512 << 20).build_global();
         let cap = std::env::var("VERIF_WALL_CAP_S")
             .ok()
             .and_then(|s| s.parse().ok())
@@ -297,9 +308,14 @@ impl Runner {
         let t0 = Instant::now();
         let before = self.inner.lock().unwrap().stats.clone();
         let skipped = AtomicU64::new(0);
+        // thin mode (the no-assertion pass of the quick tier): every k-th index of the outer enumeration, inner loops complete
+        let thin = thin_factor();
         (0..n).into_par_iter().for_each_init(
             || self.local(uidx, name),
             |l, i| {
+                if thin > 1 && i % thin != 0 && i + 1 != n {
+                    return;
+                }
                 if self.expired() {
                     skipped.fetch_add(1, Ordering::Relaxed);
                     return;
@@ -316,11 +332,11 @@ impl Runner {
         }
         let st = inner.stats.clone();
         inner.universes.push(json!({
-            "name": name, "bits": bits, "indices": n,
+            "name": name, "bits": bits, "indices": n, "thinned_to_every": thin,
             "states": st.states - before.states,
             "transitions": st.transitions - before.transitions,
             "nontrivial": st.nontrivial - before.nontrivial,
-            "exhaustive": sk == 0,
+            "exhaustive": sk == 0 && thin <= 1,
             "wall_s": (t0.elapsed().as_secs_f64() * 1000.0).round() / 1000.0,
         }));
     }
@@ -420,7 +436,7 @@ impl Runner {
             v.expected
         ));
         let j = json!({
-            "property": self.prop, "group": self.group, "universe": v.universe, "op": v.op, "op_src": v.src,
+            "property": self.prop, "group": self.group, "profile": profile_name(), "universe": v.universe, "op": v.op, "op_src": v.src,
             "bits": v.bits, "args": v.args.iter().map(V::to_json).collect::<Vec<_>>(),
             "expected": v.expected, "observed": v.got.to_json(), "kind": v.kind,
             "panic_message": v.panic_msg, "rust_repro": repro,
